@@ -511,6 +511,7 @@ class Opts:
     class_weight: int = 1  # relative weight of class-typed properties / list items
     max_consts: int = 3
     max_literals: int = 4
+    guard_other: float = 0.0  # schema invariants: probability of a None-guard on a *different* property (near-miss)
 
 
 WEIRD_CHARS = "ab \"'\\\n\t\r\x00\x01\x1f\x7f\u0085\u00a0\u00e9\u00ff\u0100\u2028\u2029\ufeff\ufffd\U0001F600{}$`%"
